@@ -158,3 +158,100 @@ func VerifC14_NestedReferences() {
 func init() {
 	verifRegister("VerifC14_NestedReferences", VerifC14_NestedReferences)
 }
+
+// c14tagsIntact: the invariant form of "everything a tagged manifest transitively
+// references remains retrievable": in the current state, for every tag, the manifest it
+// names and all blobs and child manifests it references (per the universe's known
+// reference structure; subjects may dangle by specification) are retrievable.
+func c14tagsIntact(reg *Registry, u *c02universe, rn string, maxDepth int) bool {
+	ok := true
+	// references are read under the media type the referring descriptor states (the tag's
+	// descriptor at the top, the honest child descriptors of the universe below)
+	var visit func(di int, mt string, depth int)
+	visit = func(di int, mt string, depth int) {
+		d := u.docs[di]
+		if _, err := reg.ResolveManifest(vctx, rn, d.dig); err != nil {
+			ok = false
+			return
+		}
+		view := c02viewOf(d, mt)
+		for _, bi := range view.blobs {
+			if _, err := reg.ResolveBlob(vctx, rn, u.bdig[bi]); err != nil {
+				ok = false
+			}
+		}
+		for _, mi := range view.manifests {
+			if depth < maxDepth {
+				visit(mi, u.docs[mi].mediaType, depth+1)
+			} else if _, err := reg.ResolveManifest(vctx, rn, u.docs[mi].dig); err != nil {
+				ok = false
+			}
+		}
+	}
+	for _, tag := range []string{"t1", "t2"} {
+		desc, err := reg.ResolveTag(vctx, rn, tag)
+		if err != nil {
+			continue
+		}
+		for di, d := range u.docs {
+			if d.dig == desc.Digest {
+				visit(di, desc.MediaType, 0)
+			}
+		}
+	}
+	return ok
+}
+
+// VerifC14_DeleteThenPush: immutable-tags mode, everything pushed (D2 optionally
+// tagged), then any delete followed by any push (incl. tagging an already stored
+// manifest whose references were just deleted): in the resulting state every tag still
+// resolves and everything it references is retrievable.
+func VerifC14_DeleteThenPush() {
+	u := newC02universe()
+	reg := NewWithConfig(&Config{ImmutableTags: true})
+	m := &c02model{immutable: true, repos: map[string]*c02repo{}, u: u}
+	for bi := range u.blobs {
+		_, err := reg.PushBlob(vctx, "r1", ociregistry.Descriptor{MediaType: "application/octet-stream", Digest: u.bdig[bi], Size: int64(len(u.blobs[bi]))}, bytes.NewReader(u.blobs[bi]))
+		verifAssert(err == nil, "setup")
+		m.pushBlob("r1", bi, true, true, true)
+	}
+	for di, tag := range []string{"", "", "t2", ""} {
+		if tag != "" && !verifBool("setup.tagged") {
+			tag = ""
+		}
+		d := u.docs[di]
+		_, err := reg.PushManifest(vctx, "r1", tag, d.data, d.mediaType)
+		verifAssert(err == nil, "setup")
+		m.pushManifest("r1", tag, d, d.mediaType)
+	}
+	verifAssert(c14tagsIntact(reg, u, "r1", 3), "tags-intact-after-setup")
+	c02stepRestricted(reg, m, "del", []int{3, 4, 5})
+	// a delete never breaks what a tag reaches (at any depth)
+	verifAssert(c14tagsIntact(reg, u, "r1", 3), "everything-referenced-from-a-tag-stays-retrievable")
+	before := c14take(reg, u, "r1")
+	c02stepRestricted(reg, m, "push", []int{0, 1})
+	// a push keeps every existing binding and everything reachable from it ...
+	for tag, d := range before.tagDesc {
+		got, err := reg.ResolveTag(vctx, "r1", tag)
+		verifAssert(err == nil && got.Digest == d.Digest && got.MediaType == d.MediaType, "tag-binding-kept-forever")
+	}
+	for i, dg := range before.closure {
+		var err error
+		if before.isBlob[i] {
+			_, err = reg.ResolveBlob(vctx, "r1", dg)
+		} else {
+			_, err = reg.ResolveManifest(vctx, "r1", dg)
+		}
+		verifAssert(err == nil, "everything-referenced-from-a-tag-stays-retrievable")
+	}
+	// ... and a manifest that gets tagged now has everything it references directly (a
+	// child manifest's own references are checked when the child is pushed, and may have
+	// been deleted since while the child was untagged: the property speaks of what
+	// *remains* retrievable, so only direct references are demanded here)
+	verifAssert(c14tagsIntact(reg, u, "r1", 0), "a-tagged-manifests-direct-references-are-retrievable")
+	verifCover("end")
+}
+
+func init() {
+	verifRegister("VerifC14_DeleteThenPush", VerifC14_DeleteThenPush)
+}
